@@ -207,6 +207,53 @@ func mutate(r *vh.Rng, v interface{}, depth int) interface{} {
 	}
 }
 
+// leafEdit replaces one randomly chosen leaf or element of v by a boundary value (null, -1, a scalar of
+// another type) or drops it.
+func leafEdit(r *vh.Rng, v interface{}) interface{} {
+	repl := func() interface{} {
+		switch r.Intn(6) {
+		case 0, 1:
+			return nil
+		case 2:
+			return float64(-1)
+		case 3:
+			return "1"
+		case 4:
+			return float64(1)
+		default:
+			return genScalar(r)
+		}
+	}
+	switch x := v.(type) {
+	case map[string]interface{}:
+		ks := sortedKeys(x)
+		if len(ks) == 0 || r.Chance(10) {
+			return repl()
+		}
+		k := ks[r.Intn(len(ks))]
+		if k == "__key" {
+			return x
+		}
+		if r.Chance(15) {
+			delete(x, k)
+			return x
+		}
+		x[k] = leafEdit(r, x[k])
+		return x
+	case []interface{}:
+		if len(x) == 0 || r.Chance(10) {
+			return repl()
+		}
+		i := r.Intn(len(x))
+		if r.Chance(15) {
+			return append(x[:i:i], x[i+1:]...)
+		}
+		x[i] = leafEdit(r, x[i])
+		return x
+	}
+	return repl()
+}
+
 func sortedKeys(m map[string]interface{}) []string {
 	ks := make([]string, 0, len(m))
 	for k := range m {
@@ -440,7 +487,49 @@ func main() {
 	r := vh.NewRng(o.Seed)
 
 	var cases []Case
-	if o.Replay != "" {
+	searching := o.Search != ""
+	if searching {
+		// failing-input search: variants of the cases on which model and implementation disagreed
+		var seeds []Case
+		if b, err := ioutil.ReadFile(o.Search); err == nil {
+			for _, line := range strings.Split(string(b), "\n") {
+				var w struct {
+					Case Case `json:"case"`
+				}
+				if strings.TrimSpace(line) != "" && json.Unmarshal([]byte(line), &w) == nil {
+					seeds = append(seeds, w.Case)
+				}
+			}
+		}
+		for i := 0; i < o.N; i++ {
+			cr := r.Fork()
+			if len(seeds) == 0 {
+				old := genValue(cr, 2)
+				cases = append(cases, Case{Old: old, New: deepCopy(mutate(cr, old, 2)), Origin: "search-fresh"})
+				continue
+			}
+			sd := seeds[cr.Intn(len(seeds))]
+			c := Case{Old: deepCopy(sd.Old), New: deepCopy(sd.New), IntTyped: sd.IntTyped, NumType: sd.NumType, Origin: "search"}
+			for k := 1 + cr.Intn(2); k > 0; k-- {
+				switch cr.Intn(6) {
+				case 0, 1:
+					c.New = leafEdit(cr, c.New)
+				case 2:
+					c.Old = leafEdit(cr, c.Old)
+				case 3:
+					c.New = deepCopy(mutate(cr, c.New, 2))
+				case 4:
+					c.Old = deepCopy(mutate(cr, c.Old, 2))
+				default:
+					c.Old, c.New = c.New, c.Old
+				}
+			}
+			if c.IntTyped && (!allFit(c.NumType, c.Old) || !allFit(c.NumType, c.New)) {
+				c.NumType = "int64"
+			}
+			cases = append(cases, c)
+		}
+	} else if o.Replay != "" {
 		var c Case
 		if vh.ReadReplayCase(o.Replay, &c) {
 			c.Origin = "replay"
@@ -602,6 +691,10 @@ func main() {
 		}
 	}
 
+	if searching {
+		run.Finish()
+		return
+	}
 	// Coq cases
 	const shard = 300
 	var terms []string
